@@ -153,3 +153,16 @@ Definition audited_writes : list (str * str * str * wclass) :=
    (s_ "elements.base", s_ "_AnonymousObject.__setattr__", s_ "call self.__setitem__", WResult);
    (s_ "elements.meta", s_ "ObjectMeta.python", s_ "augassign class_def", WLocal);
    (s_ "property", s_ "_Property.__repr__", s_ "call repr_args.kwargs.pop", WLocal)].
+
+(* ---- audited places where the iteration order of a set can be observed (whole statham package):
+   (module, function, expression, class).
+   SSorted     : the collected names are passed through sorted() before they reach the output;
+   SMembership : the result is again a set (only membership matters);
+   SMessage    : the order decides which of several failing validators reports first — the text of an
+                 error message, never an accepted value, a generated name or a generated file. *)
+Inductive sclass := SSorted | SMembership | SMessage.
+Definition audited_setiter : list (str * str * str * sclass) :=
+  [(s_ "serializers.python", s_ "_get_element_imports",
+    s_ "comprehension set.union(*(_get_single_element_imports(element) for element in elements))", SSorted);
+   (s_ "schema.validation.__init__", s_ "_all_subclasses", s_ "comprehension _all_subclasses(c)", SMembership);
+   (s_ "schema.validation.__init__", s_ "get_validators", s_ "for _all_subclasses(Validator)", SMessage)].
